@@ -840,7 +840,7 @@ namespace xtl
     template <class CT, std::size_t N, int ST, template <std::size_t> class EP, class TR>
     inline xbasic_fixed_string<CT, N, ST, EP, TR>::operator string_type() const
     {
-        return string_type(data());
+        return string_type(data(), size());
     }
 
     /**************
@@ -946,7 +946,7 @@ namespace xtl
     template <class CT, std::size_t N, int ST, template <std::size_t> class EP, class TR>
     inline auto xbasic_fixed_string<CT, N, ST, EP, TR>::assign(const string_type& other) -> self_type&
     {
-        return assign(other.c_str());
+        return assign(other.data(), other.size());
     }
 
     template <class CT, std::size_t N, int ST, template <std::size_t> class EP, class TR>
@@ -954,6 +954,7 @@ namespace xtl
                                                            size_type pos,
                                                            size_type count) -> self_type&
     {
+        check_index_strict(pos, other.size(), "xbasic_fixed_string::assign");
         return assign(other.c_str() + pos, std::min(count, other.size() - pos));
     }
 
@@ -2166,14 +2167,14 @@ namespace xtl
     inline bool operator==(const xbasic_fixed_string<CT, N, ST, EP, TR>& lhs,
                            const std::basic_string<CT, TR>& rhs) noexcept
     {
-        return lhs == rhs.c_str();
+        return lhs.compare(rhs) == 0;
     }
 
     template <class CT, std::size_t N, int ST, template <std::size_t> class EP, class TR>
     inline bool operator==(const std::basic_string<CT, TR>& lhs,
                            const xbasic_fixed_string<CT, N, ST, EP, TR>& rhs) noexcept
     {
-        return lhs.c_str() == rhs;
+        return rhs.compare(lhs) == 0;
     }
 
     template <class CT, std::size_t N, int ST, template <std::size_t> class EP, class TR>
@@ -2201,14 +2202,14 @@ namespace xtl
     inline bool operator!=(const xbasic_fixed_string<CT, N, ST, EP, TR>& lhs,
                            const std::basic_string<CT, TR>& rhs) noexcept
     {
-        return lhs != rhs.c_str();
+        return lhs.compare(rhs) != 0;
     }
 
     template <class CT, std::size_t N, int ST, template <std::size_t> class EP, class TR>
     inline bool operator!=(const std::basic_string<CT, TR>& lhs,
                            const xbasic_fixed_string<CT, N, ST, EP, TR>& rhs) noexcept
     {
-        return lhs.c_str() != rhs;
+        return rhs.compare(lhs) != 0;
     }
 
     template <class CT, std::size_t N, int ST, template <std::size_t> class EP, class TR>
@@ -2236,14 +2237,14 @@ namespace xtl
     inline bool operator<(const xbasic_fixed_string<CT, N, ST, EP, TR>& lhs,
                           const std::basic_string<CT, TR>& rhs) noexcept
     {
-        return lhs < rhs.c_str();
+        return lhs.compare(rhs) < 0;
     }
 
     template <class CT, std::size_t N, int ST, template <std::size_t> class EP, class TR>
     inline bool operator<(const std::basic_string<CT, TR>& lhs,
                           const xbasic_fixed_string<CT, N, ST, EP, TR>& rhs) noexcept
     {
-        return lhs.c_str() < rhs;
+        return rhs.compare(lhs) > 0;
     }
 
     template <class CT, std::size_t N, int ST, template <std::size_t> class EP, class TR>
@@ -2271,14 +2272,14 @@ namespace xtl
     inline bool operator<=(const xbasic_fixed_string<CT, N, ST, EP, TR>& lhs,
                            const std::basic_string<CT, TR>& rhs) noexcept
     {
-        return lhs <= rhs.c_str();
+        return lhs.compare(rhs) <= 0;
     }
 
     template <class CT, std::size_t N, int ST, template <std::size_t> class EP, class TR>
     inline bool operator<=(const std::basic_string<CT, TR>& lhs,
                            const xbasic_fixed_string<CT, N, ST, EP, TR>& rhs) noexcept
     {
-        return lhs.c_str() <= rhs;
+        return rhs.compare(lhs) >= 0;
     }
 
     template <class CT, std::size_t N, int ST, template <std::size_t> class EP, class TR>
@@ -2306,14 +2307,14 @@ namespace xtl
     inline bool operator>(const xbasic_fixed_string<CT, N, ST, EP, TR>& lhs,
                           const std::basic_string<CT, TR>& rhs) noexcept
     {
-        return lhs > rhs.c_str();
+        return lhs.compare(rhs) > 0;
     }
 
     template <class CT, std::size_t N, int ST, template <std::size_t> class EP, class TR>
     inline bool operator>(const std::basic_string<CT, TR>& lhs,
                           const xbasic_fixed_string<CT, N, ST, EP, TR>& rhs) noexcept
     {
-        return lhs.c_str() > rhs;
+        return rhs.compare(lhs) < 0;
     }
 
     template <class CT, std::size_t N, int ST, template <std::size_t> class EP, class TR>
@@ -2341,14 +2342,14 @@ namespace xtl
     inline bool operator>=(const xbasic_fixed_string<CT, N, ST, EP, TR>& lhs,
                            const std::basic_string<CT, TR>& rhs) noexcept
     {
-        return lhs >= rhs.c_str();
+        return lhs.compare(rhs) >= 0;
     }
 
     template <class CT, std::size_t N, int ST, template <std::size_t> class EP, class TR>
     inline bool operator>=(const std::basic_string<CT, TR>& lhs,
                            const xbasic_fixed_string<CT, N, ST, EP, TR>& rhs) noexcept
     {
-        return lhs.c_str() >= rhs;
+        return rhs.compare(lhs) <= 0;
     }
 
     template <class CT, std::size_t N, int ST, template <std::size_t> class EP, class TR>
